@@ -351,7 +351,7 @@ pub fn run(tier: Tier, seed: u64) -> Report {
     ];
     let n = tier.pick(30_000u64, 800_000u64);
     r.explore("well_formedness", n, 1000, &|t, rc| check_case(t, rc));
-    r.explore("well_formedness_data_heavy", tier.pick(25_000u64, 400_000u64), 700, &|t, rc| check_data_case(t, rc));
+    r.explore("well_formedness_data_heavy", tier.pick(25_000u64, 400_000u64), 3000, &|t, rc| check_data_case(t, rc));
     // cross-process determinism: the child regenerates the case from the tape and compiles it
     if !r.failed() {
         use proptest::strategy::{Strategy, ValueTree};
